@@ -24,7 +24,8 @@ RULES["C03"] = (
     "template surfaces (tetra, box, octa, icosphere, star prism, torus, uv-sphere, pillow; disjoint or overlapping), "
     "vertices as built / jittered / rounded to an integer lattice / replaced by random reals or random integers "
     "(self-intersecting but still closed and oriented), scaled by 1e-3..1e6, shifted up to 1000 diameters from the "
-    "origin, faces permuted and cyclically rotated, density in [1e-3,1e3], centre-of-mass override, rigid frame. "
+    "origin, faces permuted and cyclically rotated, density in [1e-3,1e3] or one of 0, -0.0, negative, 1e-300, the largest "
+    "power of two that keeps results finite, integer-typed; centre-of-mass override (incl. exactly the origin), rigid frame. "
     "Oracle: exact rational signed-tetrahedra integrals (V=sum det/6, int x_i=sum det S_i/24, "
     "int x_i x_j=sum det(sum p_i p_j+S_i S_j)/120). Non-trivial: V != 0, all centre-of-mass coordinates non-zero and "
     "all three products of inertia about the centre of mass non-zero. (c) warm objects: one mesh object read "
@@ -200,7 +201,21 @@ def underflow_floor(T, *others):
     return u
 
 
-def check_mass_state(mesh, model, sigp, tag, density, override, frames, U, defer):
+FLOOR = 2.0**-1060  # a few thousand units of the smallest subnormal: results that are themselves subnormal
+
+
+def resolve_density(x, T, extra=0.0):
+    """a density of the case: a number, or "huge" = the largest power of two that keeps every result finite
+    (|V| <= n m^3, squared distances <= 3 (m + e)^2 with m = max |coordinate|, e = max |centre / frame origin|)"""
+    if x != "huge":
+        return float(x)
+    m = 1.0 + float(np.abs(T).max())
+    e = 1.0 + float(np.max(np.abs(extra)))
+    bound = 100.0 * max(len(T), 1) * m**3 * (m + e) ** 2
+    return 2.0 ** int(np.floor(np.log2(1e300 / bound)))
+
+
+def check_mass_state(mesh, model, sigp, tag, density, override, frames, Ug, defer):
     """Compare every mass quantity of `mesh` in its current state with the exact integrals in `model`.
     override: the centre the mesh was told to use (float64 (3,)) or None.
     frames: list of (label, object handed to moment_inertia_frame, float64 4x4 holding the same values).
@@ -215,6 +230,9 @@ def check_mass_state(mesh, model, sigp, tag, density, override, frames, U, defer
     d = float(density)
     dF = Fraction(d)
     sig = sigp
+    # Ug: underflow floor of the geometric part (density 1); it is scaled by the density like everything else, and a
+    # result that is itself subnormal carries the absolute rounding of the last multiplication
+    U = Ug * abs(d) + FLOOR
     _cmp(mesh.volume, Vx, tV, sig + "volume|" + tag, "Trimesh.volume")
     check(float(mesh.density) == d, sig + "density|" + tag, f"density {mesh.density!r} != {d!r}")
     tm = abs(d) * tV + 2 * EPS * abs(d * Vx)
@@ -453,6 +471,18 @@ def _classes(case, V, F, model):
     cl.append("far:>=100_diameters" if far >= 100 else "far:>=10_diameters" if far >= 10 else "far:near_origin")
     cl.append("cond:well" if model.wellcond else "cond:volume_below_1000tol")
     cl.append("frame:" + case["frame"]["cls"])
+    for key in ("density", "density2"):
+        x = case[key]
+        if x == "huge":
+            cl.append(key + ":huge")
+        elif float(x) == 0.0:
+            cl.append(key + (":negative_zero" if np.signbit(float(x)) else ":zero"))
+        elif float(x) < 0:
+            cl.append(key + ":negative")
+        elif float(x) < 1e-200:
+            cl.append(key + ":tiny")
+    if case.get("density_as_int") and case["density"] != "huge" and float(case["density"]) == int(float(case["density"])):
+        cl.append("density:int_typed")
     cl.append("faces:%s" % ("<=20" if len(F) <= 20 else "<=100" if len(F) <= 100 else ">100"))
     return cl
 
@@ -480,9 +510,12 @@ def b_mesh(case, ctx):
         c = shift.copy()
     else:
         c = shift + np.asarray(case["cm"], dtype=np.float64) * float(case["scale"])
-    d = float(case["density"])
-    d2 = float(case["density2"])
-    U = underflow_floor(T, (max(abs(d), abs(d2)), 1), (c, 2), (frame[:3, 3], 2))
+    reach = max(float(np.abs(c).max()), float(np.abs(frame[:3, 3]).max()))
+    d = resolve_density(case["density"], T, reach)
+    d2 = resolve_density(case["density2"], T, reach)
+    Ug = underflow_floor(T, (c, 2), (frame[:3, 3], 2))
+    U = Ug + FLOOR
+    U2 = Ug * abs(d2) + FLOOR
 
     def _cmp(got, want, tol, sig, what):  # noqa: F811  (shadows the module level comparator, adds the underflow floor)
         _cmp0(got, want, np.asarray(tol, dtype=np.float64) + U, sig, what)
@@ -510,10 +543,10 @@ def b_mesh(case, ctx):
     frames = [("identity", np.eye(4), np.eye(4)), ("rigid", frame, frame)]
 
     def check_state(tag, density, override):
-        check_mass_state(mesh, model, "C03.mesh|", tag, density, override, frames, U, defer)
+        check_mass_state(mesh, model, "C03.mesh|", tag, density, override, frames, Ug, defer)
 
     check_state("default", 1.0, None)
-    mesh.density = d
+    mesh.density = int(d) if case.get("density_as_int") and d == int(d) and abs(d) < 2**53 else d
     check_state("density", d, None)
     mesh.center_mass = c
     check_state("override", d, c)
@@ -531,11 +564,12 @@ def b_mesh(case, ctx):
     r = tm_triangles.mass_properties(T, crosses=my_cross, density=d2, center_mass=c)
     d2F = Fraction(d2)
     _cmp(r.volume, Vx, tV, "C03.mesh|triangles.mass_properties|crosses|volume", "volume (crosses=)")
-    _cmp(r.mass, d2 * Vx, abs(d2) * tV + 2 * EPS * abs(d2 * Vx), "C03.mesh|triangles.mass_properties|crosses|mass", "mass (crosses=, density=)")
+    check(float(r.density) == d2, "C03.mesh|triangles.mass_properties|crosses|density", f"density {r.density!r} returned for density={d2!r}")
+    _cmp0(r.mass, d2 * Vx, abs(d2) * tV + 2 * EPS * abs(d2 * Vx) + U2, "C03.mesh|triangles.mass_properties|crosses|mass", f"mass (crosses=, density={d2!r})")
     check(np.array_equal(r.center_mass, c), "C03.mesh|triangles.mass_properties|crosses|center_mass", "center_mass argument not returned")
     cF = [Fraction(float(x)) for x in c]
     want = _mat([[d2F * x for x in row] for row in ex.inertia_centre_convention(cF)])
-    _cmp(r.inertia, want, model.inertia_at_centre(c, np.zeros(3), d2, want), "C03.mesh|triangles.mass_properties|crosses|inertia", "inertia (crosses=, density=, center_mass=)")
+    _cmp0(r.inertia, want, model.inertia_at_centre(c, np.zeros(3), d2, want) + U2, "C03.mesh|triangles.mass_properties|crosses|inertia", f"inertia (crosses=, density={d2!r}, center_mass=)")
 
     # ---- transform_inertia without parallel axis: tensor of the body moved by R is R I R^T
     if model.wellcond:
@@ -577,8 +611,12 @@ def mesh_case(draw, scales=None, modes=None, max_parts=3, max_faces=200):
         s = draw(st.one_of(st.sampled_from(scales or [1e-3, 1.0, 1e3, 1e6]), st.floats(-3.0, 6.0).map(lambda u: 10.0**u) if scales is None else st.sampled_from(scales)))
         case["scale"] = s
         case["shift"] = [k * s * x for x in direction]
-    case["density"] = draw(st.one_of(st.sampled_from([2.0, 0.5, 1000.0, 0.001]), st.floats(1e-3, 1e3, allow_nan=False)))
-    case["density2"] = draw(st.one_of(st.sampled_from([1.0, 3.0]), st.floats(1e-3, 1e3, allow_nan=False)))
+    # all densities: ordinary ones, the boundary values 0 / -0.0, negative, tiny, and as large as keeps the results finite
+    special = st.sampled_from([0.0, -0.0, 0.0, 1e-300, "huge", -1.0, -2.5, 3.0, 7.0])
+    ordinary = st.one_of(st.sampled_from([2.0, 0.5, 1000.0, 0.001, 1.0]), st.floats(1e-3, 1e3, allow_nan=False))
+    case["density"] = draw(st.one_of(ordinary, ordinary, special))
+    case["density2"] = draw(st.one_of(ordinary, special))
+    case["density_as_int"] = draw(st.booleans())
     case["cm_mode"] = draw(st.sampled_from(["rel", "rel", "rel", "origin", "shift"]))
     case["cm"] = [draw(st.floats(-3, 3, allow_nan=False)) for _ in range(3)]
     case["frame"] = draw(gmat.matrix(classes=["rigid", "rigid", "rotation", "translation", "identity"]))
@@ -650,8 +688,8 @@ def b_warm(case, ctx):
     mesh = trimesh.Trimesh(vertices=V, faces=F, process=False)
     d = 1.0
     if case["pre_density"]:
-        d = float(case["density"])
-        mesh.density = d
+        d = 1e100 if case["density"] == "huge" else float(case["density"])
+        mesh.density = int(d) if case.get("density_as_int") and d == int(d) and abs(d) < 2**53 else d
     if case["pre_override"]:
         mesh.center_mass = shift + np.asarray(case["cm"], dtype=np.float64) * scale
     frame0 = np.array(case["frame"]["M"], dtype=np.float64)
@@ -695,9 +733,9 @@ def b_warm(case, ctx):
         if case["pre_override"]:
             override = np.array(mesh.center_mass, dtype=np.float64)  # carried along by the library; taken as given
             check(np.isfinite(override).all(), "C03.warm|center_mass|override_not_finite", str(override))
-        U = underflow_floor(model.T, (d, 1), (override if override is not None else 0.0, 2), (frame[:3, 3], 2))
+        U = underflow_floor(model.T, (override if override is not None else 0.0, 2), (frame[:3, 3], 2))
         tag = "step%d" % min(k, 1) + ("|override" if override is not None else "")
-        check_surface(mesh, model, "C03.warm|", tag, U)
+        check_surface(mesh, model, "C03.warm|", tag, U + FLOOR)
         frames = [("identity", np.eye(4), np.eye(4)), ("rigid", frame, frame)]
         check_mass_state(mesh, model, "C03.warm|", tag, d, override, frames, U, defer)
         if model.wellcond:
@@ -903,9 +941,13 @@ def _run_args(case, kinds, ctx_classes=None):
     else:
         c = shift + np.asarray(case["cm"], dtype=np.float64) * scale
     c = quantize(c, q)
-    d = float(quantize(case["density"], q if q != "f16" else "f32"))
+    reach = max(float(np.abs(c).max()), float(np.abs(frame[:3, 3]).max()))
+    d = float(quantize(resolve_density(case["density"], T, reach), q if q != "f16" else "f32"))
+    if not np.isfinite(d) or (d == 0.0 and float(resolve_density(case["density"], T, reach)) != 0.0):
+        d = resolve_density(case["density"], T, reach)  # float32 cannot hold it: keep the float64 number
     A = _Args(kinds, ctx_classes)
-    U = underflow_floor(T, (d, 1), (c, 2), (frame[:3, 3], 2))
+    Ug = underflow_floor(T, (c, 2), (frame[:3, 3], 2))
+    U = Ug * max(abs(d), 1.0) + FLOOR
     Vx, tV = model.V, model.tV
     P = "C03.args|"
 
@@ -932,12 +974,18 @@ def _run_args(case, kinds, ctx_classes=None):
     cr_obj = A.arr("crosses", my_cross)
     c_obj = A.arr("center_mass", c)
     d_obj = A.scalar("density", d)
+    # a flag may be written as bool / 0 / 1 / numpy bool: 0 is "compute the inertia", not "flag not given"
+    skip = bool(case["skip_inertia"])
+    skip_obj = {"bool": skip, "int": int(skip), "np": np.bool_(skip)}[case.get("skip_rep", "bool")]
+    if ctx_classes is not None:
+        ctx_classes.append("args:skip_inertia=%s:%s" % (case.get("skip_rep", "bool"), skip))
     r = call(
         P + "triangles.mass_properties|options",
-        lambda: tm_triangles.mass_properties(t_obj, crosses=cr_obj, density=d_obj, center_mass=c_obj, skip_inertia=bool(case["skip_inertia"])),
+        lambda: tm_triangles.mass_properties(t_obj, crosses=cr_obj, density=d_obj, center_mass=c_obj, skip_inertia=skip_obj),
     )
     cmp(r.volume, Vx, tV, P + "triangles.mass_properties|options|volume", "volume (crosses=, density=, center_mass=)")
-    cmp(r.mass, d * Vx, abs(d) * tV + 2 * EPS * abs(d * Vx), P + "triangles.mass_properties|options|mass", "mass (density=)")
+    check(float(r.density) == d, P + "triangles.mass_properties|options|density", f"density {r.density!r} returned for density={d!r}")
+    cmp(r.mass, d * Vx, abs(d) * tV + 2 * EPS * abs(d * Vx), P + "triangles.mass_properties|options|mass", f"mass (density={d!r})")
     check(np.array_equal(np.asarray(r.center_mass, dtype=np.float64), c), P + "triangles.mass_properties|options|center_mass", "center_mass argument not returned")
     if case["skip_inertia"]:
         check(r.inertia is None, P + "triangles.mass_properties|options|skip_inertia", "inertia returned with skip_inertia=True")
@@ -958,15 +1006,15 @@ def _run_args(case, kinds, ctx_classes=None):
 
     # ---- the mesh object
     mesh = call(P + "Trimesh", lambda: trimesh.Trimesh(vertices=A.arr("vertices", V), faces=A.faces("faces", F), process=False))
-    check_surface(mesh, model, P, "default", U)
+    check_surface(mesh, model, P, "default", Ug + FLOOR)
     f_obj = A.arr("frame", frame)
     i_obj = A.arr("identity", np.eye(4))
     frames = [("identity", i_obj, np.eye(4)), ("rigid", f_obj, frame)]
     defer = []
-    call(P + "moment_inertia_frame", lambda: check_mass_state(mesh, model, P, "default", 1.0, None, frames, U, defer))
+    call(P + "moment_inertia_frame", lambda: check_mass_state(mesh, model, P, "default", 1.0, None, frames, Ug, defer))
     mesh.density = A.scalar("density_set", d)
     mesh.center_mass = A.arr("center_mass_set", c)
-    call(P + "moment_inertia_frame", lambda: check_mass_state(mesh, model, P, "override", d, c, frames, U, defer))
+    call(P + "moment_inertia_frame", lambda: check_mass_state(mesh, model, P, "override", d, c, frames, Ug, defer))
 
     # ---- transform_inertia
     if model.wellcond:
@@ -979,7 +1027,7 @@ def _run_args(case, kinds, ctx_classes=None):
         r_obj = A.arr("rotation", R)
         cmp(call(P + "transform_inertia", lambda: tm_inertia.transform_inertia(r_obj, x_obj)), want, tolR, P + "transform_inertia|rotate", "transform_inertia vs R I R^T")
         # parallel axis form: R^T (X + m M(a)) R
-        mval = float(quantize(abs(Vx) + 1.0, "f32"))
+        mval = 0.0 if case.get("ti_mass_zero") else float(quantize(abs(Vx) + 1.0, "f32"))
         mF = Fraction(mval)
         a = [Fraction(float(x)) for x in frame[:3, 3]]
         Ms = ox.shift_matrix(a)
@@ -1058,6 +1106,8 @@ def args_case(draw):
         kinds["faces"] = draw(st.sampled_from(FACE_REPS))
     case["kinds"] = kinds
     case["skip_inertia"] = draw(st.sampled_from([False, False, True]))
+    case["skip_rep"] = draw(st.sampled_from(["bool", "int", "np"]))
+    case["ti_mass_zero"] = draw(st.sampled_from([False, False, False, True]))
     case["frame_lattice"] = None
     if draw(st.booleans()):
         case["frame_lattice"] = {
@@ -1143,6 +1193,15 @@ REQUIRED_CLASSES["C03"] = [
     "cond:well",
     "cond:volume_below_1000tol",
     "frame:rigid",
+    "density:zero",
+    "density:negative_zero",
+    "density:negative",
+    "density:tiny",
+    "density:huge",
+    "density:int_typed",
+    "density2:zero",
+    "args:skip_inertia=int:False",
+    "args:skip_inertia=int:True",
     "warm:uniform_scale_on_warm_object",
     "warm:mirror_on_warm_object",
     "warm:op:apply_scale",
